@@ -161,6 +161,18 @@ def exhaustive(names, length):
             yield list(seq)
 
 
+def exhaustive_edges(names, length):
+    """every sequence of <= `length` edge insertions / removals on a graph that
+    already has the nodes `names` (cycles of every length <= len(names), diamonds,
+    shared descendants, duplicates, self loops)"""
+    prefix = [("node", n) for n in names]
+    alphabet = [("edge", a, b) for a in names for b in names]
+    alphabet += [("rmedge", a, b) for a in names for b in names if a != b]
+    for L in range(1, length + 1):
+        for seq in itertools.product(alphabet, repeat=L):
+            yield prefix + list(seq)
+
+
 def shrink_factory():
     def shrink(case, clause):
         ops = [tuple(o) for o in case.data["ops"]]
@@ -213,6 +225,15 @@ def run(ctx, escalated=False):
     ctx.cov["exhaustive_small_scope"] = {
         "names": 2, "max_ops": ex_len, "sequences": len(ex)}
     cases.extend(ex)
+    # the same over edge operations on pre-populated graphs (quick: 3 nodes, <=3
+    # edge operations; thorough: 3 nodes <=4 and 4 nodes <=3)
+    scopes = [([0, 1, 2], 3)] if quick else [([0, 1, 2], 4), ([0, 1, 2, 3], 3)]
+    total = 0
+    for names, L in scopes:
+        ex2 = [run_case(ops) for ops in exhaustive_edges(names, L)]
+        total += len(ex2)
+        cases.extend(ex2)
+    ctx.cov["exhaustive_edge_sequences"] = {"scopes": [[len(nm), L] for nm, L in scopes], "sequences": total}
     for c in cases:
         ctx.count("ops", len(c.lines) - 1)
         for o in c.impl_out[1:]:
